@@ -79,7 +79,7 @@ pub fn descriptors(quick: bool) -> Vec<String> {
       out.push(format!("tok:{}", idx.join(",")));
     }
   }
-  for shape in ["array", "map", "paren", "group", "tag", "choice", "generic", "alias", "unwrap", "cborseq", "jsonarr", "jsonobj", "cborarr", "cbormap", "cbortag", "cborindef", "control"] {
+  for shape in ["array", "map", "paren", "group", "tag", "choice", "generic", "generic2", "genericu", "alias", "unwrap", "cborseq", "jsonarr", "jsonobj", "cborarr", "cbormap", "cbortag", "cborindef", "control"] {
     for d in [8usize, 64] {
       out.push(format!("deep:{}:{}", shape, d));
     }
@@ -175,6 +175,24 @@ pub fn build(desc: &str) -> (String, String, Vec<u8>) {
             s.push_str(&format!("g{}<t> = g{}<t>\n", i, i + 1));
           }
           s.push_str(&format!("g{}<t> = [t]\n", d));
+          (s, "[1]".into(), vec![0x81, 1])
+        }
+        "generic2" => {
+          // two parameters, swapped at every level
+          let mut s = String::from("a = g0<int, tstr>\n");
+          for i in 0..d {
+            s.push_str(&format!("g{}<t, u> = g{}<u, t>\n", i, i + 1));
+          }
+          s.push_str(&format!("g{}<t, u> = [t, u]\n", d));
+          (s, "[1,\"x\"]".into(), vec![0x82, 1, 0x61, b'x'])
+        }
+        "genericu" => {
+          // a differently named parameter at every level
+          let mut s = String::from("a = g0<int>\n");
+          for i in 0..d {
+            s.push_str(&format!("g{}<p{}> = g{}<p{}>\n", i, i, i + 1, i));
+          }
+          s.push_str(&format!("g{}<q> = [q]\n", d));
           (s, "[1]".into(), vec![0x81, 1])
         }
         "alias" => {
